@@ -13,6 +13,8 @@ Correspondence streams
                 (adapters, pending packets, cache paths, network-number task).
   e2e-node    : the same comparison for EVERY node of every end-to-end scenario
                 (each node's event log is replayed through the model driver).
+  e2e-history : (oracle) sequences of 4..10 packets on one internetwork whose caches start cold and
+                are never reset; every node log of it goes through e2e-node as well.
   e2e-global  : deliveries of the whole internetwork vs `deliverAll` (warm caches and
                 global broadcasts; trees and cyclic topologies).
 Implementation-side oracle (independent of the model)
@@ -39,7 +41,10 @@ RULE = ("lockstep: random nodes (1..4 adapters, nets known/unknown, with/without
         "e2e: random tree internetworks (2..8 networks, 1..3 stations each, routers of 2..4 ports), "
         "every (source, kind, destination) in thorough / a seeded sample in quick, cold / configured / "
         "announced caches, stations binding with / without / learning their network number; "
-        "cyclic topologies (ring, parallel routers) incl. adversarial caches. distinct = distinct "
+        "histories: 4..10 packets in a row on one all-cold internetwork without cache reset (lines of >=4 "
+        "networks, hubs with several routers on one LAN; several stations addressing the same far station "
+        "in turn, replies to the shown source, broadcasts); cyclic topologies (ring, parallel routers, tail) "
+        "incl. adversarial caches. distinct = distinct "
         "model branch signatures (lockstep, e2e-node) and (mode, kind, tree shape class) (e2e)")
 TRUSTED = ["lean/BacVerif/Model/Route.lean is a hand transcription of NetworkServiceAccessPoint."
            "process_npdu/indication and the NetworkServiceElement handlers; tied by the lockstep, "
@@ -777,8 +782,10 @@ def live_known_types():
 # end-to-end: internetworks of real stacks over vlan.Network
 
 
-def gen_tree(rng, nn=None):
-    """random tree-shaped internetwork: {nets:[n..], routers:[[(net,mac)..]..], stations:[(net,mac,mode)]}"""
+def gen_tree(rng, nn=None, shape="random"):
+    """random tree-shaped internetwork: {nets:[n..], routers:[[(net,mac)..]..], stations:[(net,mac,mode)]}
+    shape: "random" | "line" (two-port routers in a row) | "hub" (2..3 routers on the first LAN,
+    lines behind them)"""
     nn = nn or rng.randrange(2, 9)
     pool = list(range(1, 40)) + [100, 255, 256, 4000, 65534]
     nets = rng.sample(pool, nn)
@@ -793,9 +800,19 @@ def gen_tree(rng, nn=None):
     connected, rest = [nets[0]], nets[1:]
     rng.shuffle(rest)
     routers = []
+    hub_left = rng.choice([2, 3]) if shape == "hub" else 0
     while rest:
-        k = min(rng.choice([2, 2, 3, 4]), len(rest) + 1)
-        up = rng.choice(connected)
+        if shape == "line":
+            k, up = 2, connected[-1]
+        elif hub_left:
+            k, up = 2, nets[0]
+            hub_left -= 1
+        elif shape == "hub":
+            k = min(rng.choice([2, 2, 3]), len(rest) + 1)
+            up = rng.choice(connected[1:])
+        else:
+            k = min(rng.choice([2, 2, 3, 4]), len(rest) + 1)
+            up = rng.choice(connected)
         downs = [rest.pop() for _ in range(k - 1)]
         ports = [(up, newmac(up))] + [(d, newmac(d)) for d in downs]
         rng.shuffle(ports)
@@ -1170,12 +1187,17 @@ def run_tree_scenario(ctx, vt, sc, node_lockstep=True):
     spec = sc["spec"]
     first, dist = next_hops(spec)
     case_base = {"kind": "e2e", "spec": spec, "cache_mode": sc["cache_mode"], "learn": sc["learn"]}
+    history = bool(sc.get("history"))
     worlds = []
     world = None
     for k, (sidx, dest) in enumerate(sc["sends"]):
         case = dict(case_base, send=[sidx, dest])
-        # cold caches: a fresh internetwork for every send; otherwise keep one
-        if world is None or sc["cache_mode"] == "cold":
+        if history:
+            # the failing input is the whole history up to and including this packet
+            case.update(history=True, sends=[[a, b] for a, b in sc["sends"][:k + 1]], step=k,
+                        burst_mode=bool(sc.get("burst")), max_replies=sc.get("max_replies", 3))
+        # cold caches: a fresh internetwork for every send (history: never reset); otherwise keep one
+        if world is None or (sc["cache_mode"] == "cold" and not history):
             vt.reset()
             world = World(spec, sc["cache_mode"], vt)
             worlds.append(world)
@@ -1188,7 +1210,7 @@ def run_tree_scenario(ctx, vt, sc, node_lockstep=True):
         got = send_and_check(ctx, world, spec, case, sidx, dest, dist,
                              payloads=(PAYLOAD, PAYLOAD2, PAYLOAD3) if burst else (PAYLOAD,))
         shape = (sc["cache_mode"], sc["learn"], dest[0], min(len(spec["nets"]), 5), max(len(r) for r in spec["routers"]), burst)
-        ctx.count("e2e", shape)
+        ctx.count("e2e-history" if history else "e2e", shape + ((min(k, 6),) if history else ()))
         if got is None:
             world = None
             continue
@@ -1258,6 +1280,41 @@ def gen_tree_scenario(ctx, rng, exhaustive=False, nsends=4):
         combos = picked[:max(nsends, 5)]
     return {"spec": spec, "cache_mode": cache_mode, "learn": learn, "sends": combos, "burst": True,
             "reply": True, "max_replies": 2 if not exhaustive else 3}
+
+
+def gen_history_scenario(ctx, rng):
+    """one internetwork, caches all cold at the start and NEVER reset: a sequence of 4..10 packets
+    (each run to quiescence, each followed by the recipients' replies to the source they were
+    shown): requests between random station pairs, remote / global / local broadcasts, and -
+    directed - two or three different stations addressing the same far station one after the
+    other, so that later originators and routers use what they learned passively from earlier
+    traffic (relayed I-Am-Router broadcasts, SADRs of packets passing by)"""
+    shape = rng.choice(["line", "line", "hub", "hub", "random", "random"])
+    nn = rng.randrange(4, 9) if shape != "random" else rng.randrange(3, 9)
+    spec = gen_tree(rng, nn=nn, shape=shape)
+    st = spec["stations"]
+    n = rng.randrange(4, 11)
+    sends = []
+    if rng.random() < 0.7:
+        # directed prefix: p, q (and r) on different networks all address station t
+        t = rng.randrange(len(st))
+        others = [i for i in range(len(st)) if st[i][0] != st[t][0]]
+        rng.shuffle(others)
+        picked, nets = [], set()
+        for i in others:
+            if st[i][0] not in nets:
+                nets.add(st[i][0]); picked.append(i)
+        for i in picked[:rng.choice([2, 2, 3])]:
+            dest = ["rs", st[t][0], st[t][1]] if rng.random() < 0.75 else ["rb", st[t][0]]
+            sends.append((i, dest))
+    while len(sends) < n:
+        si = rng.randrange(len(st))
+        choices = dest_choices(spec, si)
+        far = [d for d in choices if d[0] in ("rs", "rb") and d[1] != st[si][0]]
+        dest = rng.choice(far) if far and rng.random() < 0.7 else rng.choice(choices)
+        sends.append((si, dest))
+    return {"spec": spec, "cache_mode": "cold", "learn": False, "history": True, "sends": sends[:10],
+            "burst": rng.random() < 0.3, "reply": True, "max_replies": 2, "shape": shape}
 
 
 def dest_choices_mode(spec, sidx, learn):
@@ -1380,6 +1437,11 @@ def shard_e2e(ctx, spec):
         run_tree_scenario(ctx, vt, sc)
         if i == 0 and spec["shard"] == 0:
             ctx.sample({"stream": "e2e", "spec": sc["spec"], "cache_mode": sc["cache_mode"], "sends": sc["sends"][:2]})
+    for i in range(spec.get("histories", 0)):
+        sc = gen_history_scenario(ctx, rng)
+        run_tree_scenario(ctx, vt, sc)
+        if i == 0 and spec["shard"] == 0:
+            ctx.sample({"stream": "e2e-history", "spec": sc["spec"], "sends": sc["sends"]})
     for i in range(spec["cycles"]):
         sc = gen_cycle_scenario(ctx, rng)
         run_cycle_scenario(ctx, vt, sc)
@@ -1402,7 +1464,10 @@ def run_case(ctx, vt, case):
         sc = {"spec": fix_spec(case["spec"]), "cache_mode": case["cache_mode"], "learn": case.get("learn", False),
               "sends": [tuple(case["send"])] if "send" in case else [tuple(s) for s in case["sends"]],
               "reply": True, "max_replies": 3, "burst": case.get("burst", False)}
-        if case.get("burst") and "send" in case:
+        if case.get("history"):
+            sc.update(history=True, sends=[(a, b) for a, b in case["sends"]], burst=case.get("burst_mode", False),
+                      max_replies=case.get("max_replies", 2))
+        elif case.get("burst") and "send" in case:
             sc["sends"] = [sc["sends"][0], sc["sends"][0]]     # the burst is the odd-numbered send
         run_tree_scenario(ctx, vt, sc)
     elif kind == "cycle":
@@ -1457,13 +1522,13 @@ def run(ctx):
     run_corpus(ctx, vt)
     if ctx.quick:
         lock = [{"shard": i, "n": 60} for i in range(16)]
-        e2e = [{"shard": i, "trees": 6, "cycles": 3, "nsends": 5} for i in range(16)]
+        e2e = [{"shard": i, "trees": 6, "cycles": 3, "nsends": 5, "histories": 8} for i in range(16)]
     else:
         lock = [{"shard": i, "n": 2000} for i in range(16)]
         # every (source, kind, destination) on 4 trees per shard (capped at 250 sends each),
         # a sample of 12 sends on 100 more; 30 cyclic scenarios per shard
         e2e = [{"shard": i, "trees": 4, "cycles": 0, "exhaustive": True} for i in range(32)]
-        e2e += [{"shard": 100 + i, "trees": 100, "cycles": 30, "nsends": 12} for i in range(32)]
+        e2e += [{"shard": 100 + i, "trees": 100, "cycles": 30, "nsends": 12, "histories": 150} for i in range(32)]
     core.run_shards(ctx, "harness.c06", "shard_lockstep", lock)
     core.run_shards(ctx, "harness.c06", "shard_e2e", e2e)
 
@@ -1472,7 +1537,7 @@ def search(ctx):
     """focused failing-input search: more lockstep sequences and trees around the
     disagreeing shapes (the per-hop and end-to-end oracles run inside)"""
     lock = [{"shard": 1000 + i, "n": 200} for i in range(8)]
-    e2e = [{"shard": 1000 + i, "trees": 6, "cycles": 3, "nsends": 8} for i in range(8)]
+    e2e = [{"shard": 1000 + i, "trees": 6, "cycles": 3, "nsends": 8, "histories": 20} for i in range(8)]
     core.run_shards(ctx, "harness.c06", "shard_lockstep", lock)
     core.run_shards(ctx, "harness.c06", "shard_e2e", e2e)
 
